@@ -413,9 +413,17 @@ def gen_scenario(rng, focus, client=None, variant=0):
         else:
             mode = "full"
         qs = [mk(tcp=(rng.choice([0, 0, 40]), mode))]
-        if variant % 8 == 3 and not mode.startswith("over") and not mode.startswith("pad"):
-            # caller buffers beyond 65535 octets: every announced length fits
-            buf = rng.choice([65536, 66000, 70000])
+        if variant % 8 == 3:
+            # caller buffers beyond 65535 octets: every announced length fits (exactly 65536: any response; beyond:
+            # a response longer than the buffer length modulo 65536)
+            if rng.random() < 0.6:
+                buf = 65536
+                if mode.startswith(("over", "pad")):
+                    mode = "full"
+            else:
+                buf = rng.choice([66000, 70000])
+                mode = "pad:%d" % rng.choice([4500, 6000])
+            qs = [mk(tcp=(rng.choice([0, 0, 40]), mode))]
     elif focus == "xmodel":
         strategy = rng.choice(["udp", "udp", "notcp", "tcp"])
         qt, life = None, 600
